@@ -532,6 +532,24 @@ func (e *Enc) applyContract(fr *Frame, st *State, c *Contract, args []*Val, rt t
 			}
 			e.bumpAlloc(st)
 		}
+		if !c.Assumed {
+			// a verified callee may have handed out identities of the allocator ghost variables (not part of its frame)
+			for _, g := range sortedKeys(e.DB.Allocators) {
+				gv, ok := e.DB.GhostVars[g]
+				if !ok {
+					continue
+				}
+				srt, _, err := e.resolveTypeExpr(gv.T, gv.PkgPath, gv.Imports)
+				if err != nil || !strings.HasSuffix(srt, " Bool)") {
+					continue
+				}
+				ks, _ := splitArraySort(srt)
+				before := e.heapGet(st, "G|"+g, srt)
+				e.heapHavoc(st, "G|"+g)
+				after := st.heap["G|"+g]
+				e.assert("(forall ((l " + ks + ")) (! (=> (select " + before + " l) (select " + after + " l)) :pattern ((select " + after + " l))))")
+			}
+		}
 	}
 	var res *Val
 	if rt != nil {
